@@ -562,6 +562,9 @@ func c06History(t *testing.T, rep *vfReport, r *vfRng, nOps int) (ops, impl []st
 				}
 			}
 		case "full":
+			if !e.dueFull {
+				emit("needfull", "ok") // the store takes the full branch only when a full snapshot is due
+			}
 			out, ok := e.full()
 			hist = append(hist, fmt.Sprintf("F:%v", ok))
 			rep.Count(fmt.Sprintf("full-ok=%v", ok))
